@@ -32,6 +32,7 @@ template<class A> struct Sess {
     if(op=="rem") return sl(S("d"))&&!slots[S("d")].held&&usable(S("s"))&&usable(S("b"))&&S("d")!=S("s")&&S("d")!=S("b");
     if(op=="free") return sl(S("s"))&&slots[S("s")].held;
     if(op=="scribble") return bf(S("i"))&&bufs[S("i")].live;
+    if(op=="eq") return usable(S("a"))&&usable(S("b"));
     return false; }
   void protect_all(bool ro){ for(auto&b:bufs) if(b.base&&b.live) mprotect(b.base,b.bytes,ro?PROT_READ:(PROT_READ|PROT_WRITE)); }
   template<class F> int call(F f){ protect_all(true); int sig=guarded_call(f); protect_all(false); if(sig){ dead=true; } return sig; }
@@ -81,6 +82,9 @@ template<class A> struct Sess {
     if(op=="free"){ int s=S("s"); Slot&sl=slots[s]; int sig=call([&]{ if(usemm) A::FreeUriMembersMm(&sl.uri,&mm.mm); else A::FreeUriMembers(&sl.uri); });
       if(sl.owner) invalidate(sdep(s)); sl=Slot(); memset(&sl.uri,0,sizeof sl.uri);
       g.event_to(shard,J().str("e","SFree").num("s",s).num("fault",sig).done()); observe_all(); return; }
+    if(op=="eq"){ int x=S("a"), y=S("b"); std::string pa=proj(x), pb=proj(y); int res=-1, rev=-1; std::string ta="[]", tb="[]";
+      int sig=call([&]{ res=A::EqualsUri(&slots[x].uri,&slots[y].uri); rev=A::EqualsUri(&slots[y].uri,&slots[x].uri); Text t; if(real_tostring<A>(slots[x].uri,t)) ta=jopt_some(t); if(real_tostring<A>(slots[y].uri,t)) tb=jopt_some(t); });
+      g.event_to(shard,J().str("e","SEquals").num("w",A::W).num("a",x).num("b",y).raw("prea",pa).raw("preb",pb).num("res",res).num("rev",rev).raw("ta",ta).raw("tb",tb).boo("ro",pa==proj(x)&&pb==proj(y)).num("fault",sig).done()); return; }
     if(op=="scribble"){ int i=S("i"); int how=(int)a["how"].n; Buf&b=bufs[i];
       if(how==0) for(size_t k=0;k<b.n;++k) b.p[k]=(Ch)0xEE; else if(how==1) for(size_t k=0;k<b.n;++k) b.p[k]=(Ch)("x:/y?z#w@[]%41"[k%14]); else mprotect(b.base,b.bytes,PROT_NONE);
       b.live=false; invalidate(bdep(i)); g.event_to(shard,J().str("e","SScribble").num("i",i).num("how",how).done()); observe_all(); return; }
@@ -113,7 +117,8 @@ template<class A> static void random_episode(Rng&R,int steps,size_t shard,const 
         else if(c<52) a=act("norm",{{"s",1+R.below(NS)},{"m",(long long)masks[R.below(16)]}});
         else if(c<70) a=with_bool(act("add",{{"d",1+R.below(NS)},{"r",1+R.below(NS)},{"b",1+R.below(NS)}}),"o",R.below(4)==0);
         else if(c<84) a=with_bool(act("rem",{{"d",1+R.below(NS)},{"s",1+R.below(NS)},{"b",1+R.below(NS)}}),"md",R.below(3)==0);
-        else if(c<91) a=act("free",{{"s",1+R.below(NS)}});
+        else if(c<89) a=act("free",{{"s",1+R.below(NS)}});
+        else if(c<93) a=act("eq",{{"a",1+R.below(NS)},{"b",1+R.below(NS)}});
         else a=act("scribble",{{"i",1+R.below(NB)},{"how",R.below(3)}});
         found=S.can(a); } }
     if(found && S.usemm && R.below(4)==0){ const std::string&o=a["op"].s; if(o=="parse"||o=="own"||o=="norm"||o=="add"||o=="rem"){ JV n; n.k=JV::NUM; n.n=1+R.below(6); a.o.push_back({"fail",n}); } }
